@@ -205,7 +205,7 @@ class Driver(object):
         # _release_slots (older trees: the bodies themselves)
         funcs = [rc.Node.find_slot, rc.Node.allocate_slot, rc.Node.deallocate_slot,
                  rc.NodeList.find_slots, rc.NodeList.release_slots, rc.NodeList._assert_rr]
-        funcs += [getattr(rc.NodeList, n) for n in ('_find_slots', '_release_slots') if hasattr(rc.NodeList, n)]
+        funcs += [getattr(rc.NodeList, n) for n in ('_find_slots', '_release_slots', '_get_node') if hasattr(rc.NodeList, n)]
         codes = IL.code_of(*funcs)
         # once the held thread is released both run freely: a long switch interval lets the running thread go on
         # until it blocks or ends, which makes the outcome after the hold point repeatable
@@ -782,10 +782,6 @@ class AppSlots(Prop):
         k = case['kind']
         if k == 'float':
             return clause + ':float_occupations'
-        if k == 'seq' and case.get('indexing', 'pos') != 'pos':
-            return clause + ':node_id_is_not_list_position'
-        if k == 'seq' and any(n['lfs'] is None or n['mem'] is None for n in case['nodes']):
-            return clause + ':node_without_lfs_or_mem'
         if k == 'pair' and clause == 'linearizable':
             errs = [r[2] for r in (obs['ra'], obs['rb']) if r[0] == 'err' and r[1] in ('EOther', 'EType')]
             if obs['fin'].get('torn') and not errs:
